@@ -90,7 +90,7 @@ class RecurseNode(ConfigList):
 
         enode = ctx._ecfg
         for p in path:
-            enode = getattr(enode, p)
+            enode = enode[p] # not getattr: a path component can be a list index
 
         assert isinstance(enode, EvalContext.PartialChild)
         enode.clear()
